@@ -440,7 +440,7 @@ class Intervals(Family):
     timeout = 30.0
 
     def generate(self, rng, tier):
-        nd = 120 if tier == "quick" else 900
+        nd = 120 if tier == "quick" else 650
         per = 10 if tier == "quick" else 16
         # exhaustive interval lists on a few small descriptions
         for k in range(3 if tier == "quick" else 12):
@@ -698,7 +698,7 @@ class Trim(Family):
     workers = 8
 
     def generate(self, rng, tier):
-        nd = 500 if tier == "quick" else 5000
+        nd = 500 if tier == "quick" else 3500
         for k in range(nd):
             d = make_desc(rng, migrations=(rng.random() < 0.5))
             L = d["L"]
@@ -842,7 +842,7 @@ class DelSites(Family):
     workers = 8
 
     def generate(self, rng, tier):
-        nd = 100 if tier == "quick" else 1000
+        nd = 100 if tier == "quick" else 700
         for _ in range(nd):
             d = make_desc(rng, max_sites=5)
             ns = len(d["sites"])
@@ -955,7 +955,7 @@ class TimeCut(Family):
     workers = 8
 
     def generate(self, rng, tier):
-        nd = 90 if tier == "quick" else 1200
+        nd = 90 if tier == "quick" else 800
         for k in range(nd):
             mig = rng.random() < 0.25
             d = make_desc(rng, migrations=mig)
